@@ -19,6 +19,19 @@ func main() {
 		os.Exit(cmdCheck(os.Args[2:]))
 	case "dev":
 		os.Exit(cmdDev(os.Args[2:]))
+	case "ssa":
+		p, err := loadProgram("/repo", "/verif/contracts", defaultPatterns)
+		if err != nil {
+			fmt.Fprintln(os.Stderr, err)
+			os.Exit(2)
+		}
+		for k, fn := range p.fnByKey {
+			for _, a := range os.Args[2:] {
+				if strings.HasSuffix(k, a) {
+					fn.WriteTo(os.Stdout)
+				}
+			}
+		}
 	default:
 		fmt.Fprintln(os.Stderr, "unknown command")
 		os.Exit(2)
